@@ -14,7 +14,6 @@ import (
 	"github.com/tinode/chat/server/auth"
 	"github.com/tinode/chat/server/store/types"
 	"github.com/tinode/chat/server/zzverif/memdb"
-	"github.com/tinode/chat/server/zzverif/vatomic"
 	"github.com/tinode/chat/server/zzverif/vfev"
 	"github.com/tinode/chat/server/zzverif/vsched"
 )
@@ -274,6 +273,9 @@ func TestVerifC03SuspendAtLoad(t *testing.T) {
 							if injected {
 								return
 							}
+							if vsched.CurrentID() == vfMainG {
+								return // the harness's own goroutine: not a position inside the first request
+							}
 							n++
 							if n == k {
 								injected = true
@@ -290,8 +292,8 @@ func TestVerifC03SuspendAtLoad(t *testing.T) {
 							event("before store call " + name)
 						}
 						memdb.OnReturn = func(name string) { event("after store call " + name) }
-						vatomic.OnOp = func(write bool) { event("atomic operation") }
-						restore := func() { memdb.OnCall, memdb.OnReturn, vatomic.OnOp = prev, nil, nil }
+						vsched.OnPoint = func(kind string) { event(kind) }
+						restore := func() { memdb.OnCall, memdb.OnReturn, vsched.OnPoint = prev, nil, nil }
 						vsched.OnKill(restore)
 						subCode, _ = x.cl[1].Req(`{"sub":{"id":"$ID","topic":"%s"}}`, target)
 						restore()
